@@ -39,14 +39,16 @@ class ProbeFail(GlomError):
 
 
 class Probe:
-    def __init__(self, tag, fail=False):
-        self.tag, self.fail = tag, fail
+    def __init__(self, tag, fail=False, consume=False):
+        self.tag, self.fail, self.consume = tag, fail, consume
 
     def glomit(self, target, scope):
         fn = scope[MODE]
         LOG.append((self.tag, MODE_NAMES.get(getattr(fn, '__name__', '?'), getattr(fn, '__name__', '?'))))
         if self.fail:
             raise ProbeFail('probe %s fails' % self.tag)
+        if self.consume and hasattr(target, '__next__'):
+            return list(target)      # a later step that consumes a lazy iterator built inside an earlier (mode-wrapped) step
         return target
 
     def __repr__(self):
@@ -58,11 +60,13 @@ WRAP = {'auto': Auto, 'fill': Fill, 'match': Match, 'group': Group}
 
 def build(term, counter):
     k = term[0]
-    if k in ('P', 'F'):
+    if k in ('P', 'F', 'C'):
         counter[0] += 1
-        return Probe('p%d' % counter[0], fail=(k == 'F'))
+        return Probe('p%d' % counter[0], fail=(k == 'F'), consume=(k == 'C'))
     if k in WRAP:
         return WRAP[k](build(term[1], counter))
+    if k == 'iter':
+        return G.Iter().map(build(term[1], counter))
     kids = [build(x, counter) for x in term[1]] if k != 'switch' else None
     if k == 'pipe':
         return Pipe(*kids)
@@ -87,7 +91,21 @@ class RefFail(Exception):
     pass
 
 
+class LazyMap:
+    """like map(): an exception raised for one item does not end the iteration"""
+    def __init__(self, fn, items):
+        self.fn, self.items = fn, iter(items)
+
+    def __iter__(self):
+        return self
+
+    def __next__(self):
+        return self.fn(next(self.items))
+
+
 def iterate(v):
+    if hasattr(v, '__next__'):
+        return v
     if isinstance(v, (list, tuple)):
         return list(v)
     if isinstance(v, dict):
@@ -100,14 +118,21 @@ def walk(term, mode, counter, log, target, acc=None):
     evaluation order, returns the value, raises RefFail on a GlomError-class failure.
     *acc* maps a plain-list node (by id of the term) to its Group accumulator."""
     k = term[0]
-    if k in ('P', 'F'):
+    if k in ('P', 'F', 'C'):
         counter[0] += 1
         log.append(('p%d' % counter[0], mode))
         if k == 'F':
             raise RefFail()
+        if k == 'C' and hasattr(target, '__next__'):
+            return list(target)
         return target
     if k in ('auto', 'fill', 'match'):
         return walk(term[1], k, counter, log, target, acc)
+    if k == 'iter':
+        start = numbering(term[1], counter)
+        items = iterate(target)
+        # lazy, like the implementation: the sub-spec runs (and logs) when a later step consumes the iterator - in the mode of ITS position
+        return LazyMap(lambda item: walk(term[1], mode, [start], log, item, acc), items)
     if k == 'group':
         start = counter[0]
         counter[0] += count_probes(term[1])
@@ -173,9 +198,9 @@ def walk(term, mode, counter, log, target, acc=None):
 
 def count_probes(term):
     k = term[0]
-    if k in ('P', 'F'):
+    if k in ('P', 'F', 'C'):
         return 1
-    if k in WRAP:
+    if k in WRAP or k == 'iter':
         return count_probes(term[1])
     if k == 'switch':
         return sum(count_probes(a) + count_probes(b) for a, b in term[1])
@@ -190,7 +215,27 @@ def numbering(term, counter):
 
 
 def mk_target():
-    return [[[[[[[0]]]]]]]
+    n = [0]
+
+    def mk(d):
+        if d == 0:
+            n[0] += 1
+            return n[0]
+        return [mk(d - 1), mk(d - 1)]
+    return mk(6)
+
+
+def drain(v):
+    """consume lazy iterators left in a result (after the evaluation has returned), recursively"""
+    if hasattr(v, '__next__'):
+        return ['<iterator>'] + [drain(x) for x in v]
+    if isinstance(v, list):
+        return [drain(x) for x in v]
+    if isinstance(v, tuple):
+        return tuple(drain(x) for x in v)
+    if isinstance(v, dict):
+        return {k: drain(x) for k, x in v.items()}
+    return v
 
 
 def run_lexical(case):
@@ -200,12 +245,12 @@ def run_lexical(case):
     spec = build(full, [0])
     want_log = []
     try:
-        want = 'ok:' + repr(walk(full, 'auto', [0], want_log, mk_target(), {}))
+        want = 'ok:' + repr(drain(walk(full, 'auto', [0], want_log, mk_target(), {})))
     except RefFail:
         want = 'fail'
     del LOG[:]
     try:
-        got = 'ok:' + repr(glom(mk_target(), spec))
+        got = 'ok:' + repr(drain(glom(mk_target(), spec)))
     except GlomError as e:
         got = 'fail'
     except Exception as e:
@@ -219,7 +264,7 @@ def run_lexical(case):
              tags={m for _, m in want_log} | {term[0]})
 
 
-LEAVES = [['P'], ['F']]
+LEAVES = [['P'], ['F'], ['C']]
 PLAIN_OK = {'auto': ('tuple', 'list', 'dict'), 'fill': ('tuple', 'list', 'dict'), 'group': ('list',), 'match': ()}
 
 
@@ -240,6 +285,8 @@ def gen_terms(mode, depth):
     for w in WRAP:
         for t in (sub[w] if depth == 1 else [x for x in sub[w] if size(x) <= CAPS['wrapsize']]):
             out.append([w, t])
+    for t in (same if depth == 1 else [x for x in same if size(x) <= CAPS['wrapsize']]):
+        out.append(['iter', t])
     for a, b in itertools.product(small, repeat=2):
         out.append(['pipe', [a, b]])
         out.append(['coalesce', [a, b]])
@@ -262,9 +309,9 @@ def gen_terms(mode, depth):
 
 def size(t):
     k = t[0]
-    if k in ('P', 'F'):
+    if k in ('P', 'F', 'C'):
         return 1
-    if k in WRAP:
+    if k in WRAP or k == 'iter':
         return 1 + size(t[1])
     if k == 'switch':
         return 1 + sum(size(a) + size(b) for a, b in t[1])
@@ -280,12 +327,80 @@ def gen_lexical(tier):
         CAPS.update({'small': 16, 'triple': 5, 'wrapsize': 6, 'smallsize': 4})
     cases, seen = [], set()
     for outer in ('auto', 'fill', 'match', 'group'):
-        for t in gen_terms(outer, depth):
+        for t in itertools.chain(gen_terms(outer, depth), gen_lazy(outer), gen_spines(outer, 3 if tier == 'quick' else 4)):
             key = outer + json.dumps(t)
             if key not in seen:
                 seen.add(key)
                 cases.append([outer, t])
     return cases
+
+
+def gen_lazy(mode):
+    """a wrapper around a lazy Iter().map(X) as a NON-LAST link: the iterator is consumed by a later step, or after glom() returned"""
+    out = []
+    chains = ['pipe', 'tuple'] if mode == 'auto' else ['pipe']
+    for w in list(WRAP) + [None]:
+        inner_mode = w or mode
+        for x in gen_terms(inner_mode, 1):
+            if size(x) > 4:
+                continue
+            lazy = ['iter', x]
+            for body in (lazy, ['pipe', [['P'], lazy]], ['coalesce', [['F'], lazy]], ['iter', lazy]):
+                wb = [w, body] if w else body
+                out.append(wb)
+                for ch in chains:
+                    out.append([ch, [wb, ['C']]])
+                    out.append([ch, [wb, ['P'], ['C']]])
+                    out.append([ch, [['P'], wb, ['C'], ['P']]])
+                    out.append([ch, [['coalesce', [wb, ['P']]], ['C']]])
+                    out.append([ch, [['switch', [[['P'], wb]]], ['C']]])
+                    out.append([ch, [wb, ['fill', ['C']]]])
+                    out.append([ch, [wb, ['coalesce', [['C'], ['P']]]]])
+    return out
+
+
+def gen_spines(mode, levels):
+    """linear nestings (wrapper?, container) x levels with probe siblings: deep alternations the depth-3 product cannot reach"""
+    def containers(m):
+        cs = ['pipe', 'coalesce', 'iter', None]
+        if m in ('auto', 'fill'):
+            cs += ['tuple', 'dict', 'list']
+        if m == 'group':
+            cs += ['list']
+        return cs
+
+    def put(c, m, child):
+        if c is None:
+            return child
+        if c == 'iter':
+            return ['iter', child]
+        if c == 'list' and m == 'auto':
+            return ['list', [child]]
+        if c == 'list' and m == 'group':
+            return ['list', [child]]
+        if c == 'coalesce':
+            return ['coalesce', [['F'], child]]
+        if c in ('pipe', 'tuple') and (c == 'pipe' or m == 'auto'):
+            return [c, [['P'], child]]
+        return [c, [child, ['P']]]          # fill-mode tuple / list, dict: siblings share the target
+
+    def rec(m, n):
+        if n == 0:
+            return [['P'], ['fill', ['list', [['P'], ['P']]]], ['fill', ['dict', [['P']]]]]
+        out = []
+        for w in [None] + list(WRAP):
+            m2 = w or m
+            for c in containers(m2):
+                if w is None and c is None:
+                    continue
+                for child in rec(m2, n - 1):
+                    t = put(c, m2, child)
+                    out.append([w, t] if w else t)
+        return out
+    res = []
+    for n in range(1, levels + 1):
+        res.extend(rec(mode, n))
+    return res
 
 
 # ---------------------------------------------------------------------------
